@@ -1,7 +1,8 @@
 (* routine: codec, eager schedule, observations, and the monitors of C04, C05, C14.
 
-   Config line:  C variant cmp ncb hasbo d1 d2 ...      (variant 0 RoutineContainer, 1 StateRoutineContainer;
-                 cmp 0 nil compare / 1 equality / 2 equality mod 2; ncb exit callbacks; scripted back-off durations)
+   Config line:  C variant cmp ncb hasbo exitg d1 d2 ...  (variant 0 RoutineContainer, 1 StateRoutineContainer;
+                 cmp 0 nil compare / 1 equality / 2 equality mod 2; ncb exit callbacks; exitg = 1: instances also park
+                 after leaving their bookkeeping section (HoldLock exit gate); scripted back-off durations)
    Events:   1 c restart   SetContext (c = 0: nil)        2 f   SetRoutine (f = 0: nil)        3   RestartRoutine
              4 v  SetState   5 g  SwapValue   6 f  SetStateRoutine   7  GetState
              8 i enter  instance i leaves its first gate (enter: it entered the user function; only used when both
@@ -12,7 +13,7 @@
    Observation after every event:
      rets  ninst (code arg root canc)*  nchan status*  ndelta outcome*  nwait wcode*  nparked
      instance code 1 at first gate, 2 blocked, 3 in user code (then arg, root context, ctx.Err()!=nil), 4 parked before
-     bookkeeping, 5 done; channel status 0 nil, 1 open, 2 closed (every waitReturn handed out, in order);
+     bookkeeping, 5 done, 6 parked after its bookkeeping section (the model has already run the section); channel status 0 nil, 1 open, 2 closed (every waitReturn handed out, in order);
      delta = exit-callback invocations during this event; wcode 1 at gate, 2 blocked, 3+o returned o. *)
 From Util Require Import Common.Base Common.ListLemmas Routine.Model.
 Open Scope N_scope.
@@ -23,12 +24,13 @@ Definition dec_out (n : N) : outcome := match n with 0 => ONil | 1 => OCanc | _ 
 Definition nb (x : bool) : N := if x then 1 else 0.
 Definition nz (n : N) : bool := negb (N.eqb n 0).
 
-Record hst := { hs : st; hch : list (option nat); hlog : nat }.
+Record hst := { hs : st; hch : list (option nat); hlog : nat; hexitg : bool; hexit : list nat (* instances parked at the exit gate *) }.
 
 Definition hinit (cfg : list N) : option hst :=
   match cfg with
-  | variant :: cmp :: ncbs :: hasbo :: script =>
-    Some {| hs := init (nz variant) (n2n cmp) (n2n ncbs) (if nz hasbo then Some script else None); hch := []; hlog := 0 |}
+  | variant :: cmp :: ncbs :: hasbo :: exitg :: script =>
+    Some {| hs := init (nz variant) (n2n cmp) (n2n ncbs) (if nz hasbo then Some script else None); hch := []; hlog := 0;
+            hexitg := nz exitg; hexit := [] |}
   | _ => None
   end.
 
@@ -52,9 +54,14 @@ Definition wcode (w : waiter) : N :=
   match wpcv w with WGate => 1 | WBlocked _ => 2 | WRet o => 3 + enc_out o end.
 Definition is_fired (t : timer) : bool := match tst t with TFired => true | _ => false end.
 
+Definition icode_at (ex : list nat) (k : nat) (x : inst) : list N :=
+  if existsb (Nat.eqb k) ex then [6; 0; 0; 0] else icode x.
+Fixpoint icodes (ex : list nat) (k : nat) (l : list inst) : list N :=
+  match l with [] => [] | x :: r => icode_at ex k x ++ icodes ex (S k) r end.
+
 Definition obs_of (rets : list N) (h : hst) : list N :=
   let s := hs h in
-  rets ++ [N.of_nat (length (insts s))] ++ concat (map icode (insts s))
+  rets ++ [N.of_nat (length (insts s))] ++ icodes (hexit h) 0 (insts s)
        ++ [N.of_nat (length (hch h))] ++ map (chcode s) (hch h)
        ++ [N.of_nat (length (cblog s) - hlog h)] ++ map enc_out (skipn (hlog h) (cblog s))
        ++ [N.of_nat (length (waiters s))] ++ map wcode (waiters s)
@@ -73,10 +80,11 @@ Definition wr_code (w : option nat) : N := match w with None => 0 | Some _ => 1 
 
 Definition hstep (h : hst) (e : list N) : option (hst * list N) :=
   let s := hs h in
-  let fin (s' : st) (ch : list (option nat)) (rets : list N) :=
+  let finx (s' : st) (ch : list (option nat)) (rets : list N) (ex : list nat) :=
     let s'' := settle s' in
-    let h' := {| hs := s''; hch := ch; hlog := hlog h |} in
-    Some ({| hs := s''; hch := ch; hlog := length (cblog s'') |}, obs_of rets h') in
+    let h' := {| hs := s''; hch := ch; hlog := hlog h; hexitg := hexitg h; hexit := ex |} in
+    Some ({| hs := s''; hch := ch; hlog := length (cblog s''); hexitg := hexitg h; hexit := ex |}, obs_of rets h') in
+  let fin (s' : st) (ch : list (option nat)) (rets : list N) := finx s' ch rets (hexit h) in
   match e with
   | [1; c; r] => let '(s', ch) := set_context repaired s (n2n c) (nz r) in fin s' (hch h) [nb ch]
   | [2; f] => if sv s then None else
@@ -107,9 +115,14 @@ Definition hstep (h : hst) (e : list N) : option (hst * list N) :=
     end
   | [10; i] =>
     match nth_error (insts s) (n2n i) with
-    | Some x => match ipcv x with IBook _ => fin (bookkeep s (n2n i)) (hch h) [] | _ => None end
+    | Some x => match ipcv x with
+                | IBook _ => finx (bookkeep s (n2n i)) (hch h) [] (if hexitg h then hexit h ++ [n2n i] else hexit h)
+                | _ => None
+                end
     | None => None
     end
+  | [17; i] =>
+    if existsb (Nat.eqb (n2n i)) (hexit h) then finx s (hch h) [] (filter (fun k => negb (Nat.eqb k (n2n i))) (hexit h)) else None
   | [11; d] => fin (advance s d) (hch h) []
   | [12; k] =>
     match nth_error (fired_sorted (timers s)) (n2n k) with
@@ -202,15 +215,18 @@ Record mst := {
   m_pending : option N;               (* deadline of the retry that must come *)
   m_quiet : bool;                     (* no API call / timer callback since the newest instance was spawned *)
   m_cur : option nat;                 (* the instance the reference machine regards as current *)
+  m_exitg : bool;                     (* exit-gate configuration: reports may lag behind the recorded status, so the
+                                         reference-machine clauses 14/1-4 are evaluated in the other configurations only *)
+  m_pend : list (nat * bool * bool);  (* instances parked after their bookkeeping section: (instance, reported already, had to be reported) *)
   m_wcanc : list bool;                (* per waiter: cancelled *)
 }.
 
 Definition minit (cfg : list N) : option mst :=
   match cfg with
-  | variant :: cmp :: ncbs :: hasbo :: script =>
+  | variant :: cmp :: ncbs :: hasbo :: exitg :: script =>
     Some {| m_sv := nz variant; m_ncb := n2n ncbs; m_script := if nz hasbo then Some script else None; m_idx := 0;
             m_ctx := 0; m_hasr := false; m_sfn := 0; m_st := 0; m_clock := 0; m_ninst := 0; m_out := []; m_chans := [];
-            m_succ := false; m_err := false; m_curexit := None; m_pending := None; m_quiet := false; m_cur := None; m_wcanc := [] |}
+            m_succ := false; m_err := false; m_curexit := None; m_pending := None; m_quiet := false; m_cur := None; m_exitg := nz exitg; m_pend := []; m_wcanc := [] |}
   | _ => None
   end.
 
@@ -289,16 +305,36 @@ Definition mon1 (m : mst) (e : list N) (p : pobs) : mst * list (nat * nat) :=
               ++ fails 14 2 (negb (spawned && m_err m) || is_restart || is_ctx_restart || is_timer || epoch) in
   (* exit reporting *)
   let delta := po_delta p in
-  let is_book := match e with [10; _] => true | _ => false end in
-  let book_i := match e with [10; i] => n2n i | _ => 0%nat end in
+  let is_book := match e with [10; _] => true | [17; _] => true | _ => false end in
+  let book_i := match e with [10; i] => n2n i | [17; i] => n2n i | _ => 0%nat end in
   let my_out := nth book_i out'' 1 in
-  let f14e := if is_book
-              then fails 14 5 ((match delta with [] => true | _ => false end || (Nat.eqb (length delta) (m_ncb m) && all_eq my_out delta))
-                               && (negb (Nat.eqb book_i newest && m_quiet m && Nat.ltb 0 (m_ncb m)) || negb (match delta with [] => true | _ => false end)))
-              else fails 14 5 (match delta with [] => true | _ => false end) in
+  let nodelta := match delta with [] => true | _ => false end in
+  let must_report := Nat.eqb book_i newest && m_quiet m && Nat.ltb 0 (m_ncb m) in
+  (* the instance is still parked after its section (code 6): the report may also come when it leaves that gate *)
+  let parked_after := match e with [10; _] => N.eqb (icode_of (nth book_i is (0, 0, 0, 0))) 6 | _ => false end in
+  let pend_entry := find (fun t => Nat.eqb (fst (fst t)) book_i) (m_pend m) in
+  let f14e :=
+    match e with
+    | [10; _] =>
+      fails 14 5 ((nodelta || (Nat.eqb (length delta) (m_ncb m) && all_eq my_out delta))
+                  && (parked_after || negb must_report || negb nodelta))
+    | [17; _] =>
+      match pend_entry with
+      | Some (_, reported, must) =>
+        fails 14 5 ((nodelta || (negb reported && Nat.eqb (length delta) (m_ncb m) && all_eq my_out delta))
+                    && (negb must || reported || negb nodelta))
+      | None => fails 14 5 nodelta
+      end
+    | _ => fails 14 5 nodelta
+    end in
+  let pend' := match e with
+               | [10; _] => if parked_after then (m_pend m ++ [(book_i, negb nodelta, must_report)])%list else m_pend m
+               | [17; _] => filter (fun t => negb (Nat.eqb (fst (fst t)) book_i)) (m_pend m)
+               | _ => m_pend m
+               end in
   let clear_ctx := match e with [1; c; _] => N.eqb c 0 | _ => false end in
   let cur' := if spawned then Some newest else if epoch || clear_ctx then None else m_cur m in
-  let recorded := is_book && negb (match delta with [] => true | _ => false end)
+  let recorded := is_book && negb nodelta
                   && match m_cur m with Some c => Nat.eqb c book_i | None => false end in
   let rec_ok := recorded && N.eqb my_out 0 in
   let rec_err := recorded && negb (N.eqb my_out 0) in
@@ -344,8 +380,8 @@ Definition mon1 (m : mst) (e : list N) (p : pobs) : mst * list (nat * nat) :=
       m_ctx := ctx'; m_hasr := hasr'; m_sfn := sfn'; m_st := st'; m_clock := clock';
       m_ninst := n; m_out := out''; m_chans := chans';
       m_succ := if recorded then rec_ok else succ'; m_err := if recorded then rec_err else err';
-      m_curexit := curexit'; m_pending := pending'; m_quiet := quiet'; m_cur := cur'; m_wcanc := wcanc' |},
-   f4 ++ f5 ++ f14a ++ f14e ++ f14c ++ f14w).
+      m_curexit := curexit'; m_pending := pending'; m_quiet := quiet'; m_cur := cur'; m_exitg := m_exitg m; m_pend := pend'; m_wcanc := wcanc' |},
+   f4 ++ f5 ++ (if m_exitg m then [] else f14a) ++ f14e ++ (if m_exitg m then [] else f14c ++ f14w)).
 
 Definition mon (m : option mst) (e o : list N) : option mst * list (nat * nat) :=
   match m with
